@@ -43,6 +43,18 @@ class _TransformedFnCache(object):
       return False
     return subkey in parent
 
+  def get(self, entity, subkey, default=None):
+    """Returns the value cached for (entity, subkey) in a single lookup.
+
+    Unlike `has` followed by indexing, this cannot fail if the entry disappears
+    in between (the keys are weak references).
+    """
+    key = self._get_key(entity)
+    parent = self._cache.get(key, None)
+    if parent is None:
+      return default
+    return parent.get(subkey, default)
+
   def __getitem__(self, entity):
     key = self._get_key(entity)
     parent = self._cache.get(key, None)
